@@ -36,18 +36,8 @@ example : exLeaf.notBefore ≤ exLeaf.notAfter := by decide
 
 /-- **Acceptance = trust rule.** `VerifyCertificate` returns a cached certificate iff the rule holds. -/
 theorem accept_iff (K : Crypto) (p : Pool) (t : Int) (c : Cert) :
-    (∃ cc, p.verifyCertificate K t c = .ok cc) ↔ trusted K p t c := by
-  unfold trusted notBlocked
-  constructor
-  · rintro ⟨cc, h⟩
-    obtain ⟨fp, fp2, hf, ha, hv, hb2, -⟩ := (verifyCertificate_ok_iff K p t c cc).mp h
-    obtain ⟨hb, hi, -, ca, hl, hc, he1, he2, hs, hk⟩ := (verify_full_ok_iff K p c t fp c.issuer).mp hv
-    exact ⟨⟨fp, hf, hb, fp2, ha, hb2⟩, hi, ca, hl, hc, (expired_false_iff ca t).mp he1,
-      (expired_false_iff c t).mp he2, hs, (checkCA_none_iff ca c).mp hk⟩
-  · rintro ⟨⟨fp, hf, hb, fp2, ha, hb2⟩, hi, ca, hl, hc, hv1, hv2, hs, hw⟩
-    refine ⟨_, (verifyCertificate_ok_iff K p t c _).mpr ⟨fp, fp2, hf, ha, ?_, hb2, rfl⟩⟩
-    exact (verify_full_ok_iff K p c t fp c.issuer).mpr ⟨hb, hi, rfl, ca, hl, hc,
-      (expired_false_iff ca t).mpr hv1, (expired_false_iff c t).mpr hv2, hs, (checkCA_none_iff ca c).mpr hw⟩
+    (∃ cc, p.verifyCertificate K t c = .ok cc) ↔ trusted K p t c :=
+  Nebula.Lemmas.CAPool.accept_iff K p t c
 
 /-- What the accepted record contains: the certificate itself, both fingerprints, and the issuer as signer. -/
 theorem accept_record (K : Crypto) (p : Pool) (t : Int) (c : Cert) (cc : Cached)
